@@ -37,6 +37,7 @@ type c19Case struct {
 	Audio        string `json:"audio,omitempty"`          // video-led with an additional audio track: aac16 aac44 aac48 opus
 	AudioStartMS int    `json:"audio_start_ms,omitempty"` // the audio track starts this late
 	AudioFirst   bool   `json:"audio_first,omitempty"`    // the audio track is listed before the video track in Muxer.Tracks
+	ParamAt      int    `json:"param_at,omitempty"`       // video: the k-th key frame (1-based, > 1) switches to the other parameter set
 }
 
 func c19Sources(tier string) []c19Src {
@@ -181,6 +182,7 @@ func c19RunCase(cs c19Case) (viols [][2]string, nplaylists int, outcome string) 
 	if total > 2500 {
 		total = 2500
 	}
+	nKey := 0
 	nextKey := int64(0) // time (ticks) of the next key frame
 	spIdx := 0
 	lastPartID := uint64(0)
@@ -229,6 +231,10 @@ func c19RunCase(cs c19Case) (viols [][2]string, nplaylists int, outcome string) 
 			u := wunit{Track: 0, DTS: dts, RA: ra, Seq: i}
 			if ra {
 				u.Params = 1
+				nKey++
+				if nKey == cs.ParamAt {
+					u.Params = 2 // new parameter sets: the segmenter starts a segment here and looks for its part duration again
+				}
 			}
 			err = m.WriteH264(tk, verifT0, dts, mi.videoData(u))
 		case "aac":
@@ -425,6 +431,20 @@ func c19Run(c *vh.Ctx) {
 					continue
 				}
 				cs := c19Case{Src: src, PartMS: pm, SegMS: seg, Spacing: sp, Audio: audio, AudioStartMS: ast, AudioFirst: am.first}
+				if src.Kind == "h264" && len(sp) == 1 && sp[0] == 1000 && ast == 0 && !am.first {
+					// the same grid point with new parameter sets on the second / third key frame
+					for _, pa := range []int{2, 3} {
+						csp := cs
+						csp.ParamAt = pa
+						vp, nplp, outp := c19RunCase(csp)
+						c.Exec()
+						c.AddSteps(int64(nplp))
+						c.Outcome(strings.Join([]string{src.Label, fmt.Sprint(pm, seg, sp, audio, "param-at", pa), outp}, "|"))
+						for _, x := range vp {
+							c.Violation(x[0], x[1], csp)
+						}
+					}
+				}
 				v, npl, out := c19RunCase(cs)
 				c.Exec()
 				c.AddSteps(int64(npl))
